@@ -731,7 +731,7 @@ fn run_mol(opts: &Opts, out: &mut Out) {
     let t = Table::new();
     let mut rng = Rng::new(opts.seed);
     // every declared type at least twice, then the main types repeatedly
-    let rounds = if opts.thorough() { 60 } else { 4 } * opts.scale;
+    let rounds = if opts.thorough() { 700 } else { 24 } * opts.scale;
     for n in t.names.clone() {
         for _ in 0..2 {
             mol_case(out, &t, &mut rng, n, false);
@@ -739,7 +739,7 @@ fn run_mol(opts: &Opts, out: &mut Out) {
     }
     for r in 0..rounds {
         for n in MAIN_TYPES {
-            mol_case(out, &t, &mut rng, n, opts.thorough() && r % 10 == 9);
+            mol_case(out, &t, &mut rng, n, opts.thorough() && r % 50 == 49);
         }
         let n = *rng.pick(&t.names);
         mol_case(out, &t, &mut rng, n, false);
@@ -944,7 +944,7 @@ fn json_bytes_ops(out: &mut Out, rng: &mut Rng) {
 fn run_json(opts: &Opts, out: &mut Out) {
     let t = Table::new();
     let mut rng = Rng::new(opts.seed ^ 0x6a736f6e);
-    let rounds = if opts.thorough() { 200 } else { 12 } * opts.scale;
+    let rounds = if opts.thorough() { 4000 } else { 150 } * opts.scale;
     for r in 0..rounds {
         out.begin_case("json");
         if r < 3 || r % 10 == 0 {
@@ -1134,7 +1134,7 @@ fn hash_case(out: &mut Out, t: &Table, rng: &mut Rng) {
 fn run_hash(opts: &Opts, out: &mut Out) {
     let t = Table::new();
     let mut rng = Rng::new(opts.seed ^ 0x68617368);
-    let rounds = if opts.thorough() { 600 } else { 40 } * opts.scale;
+    let rounds = if opts.thorough() { 12000 } else { 500 } * opts.scale;
     for _ in 0..rounds {
         hash_case(out, &t, &mut rng);
     }
@@ -1233,13 +1233,31 @@ fn replay(opts: &Opts, out: &mut Out, path: &std::path::Path) {
     let _ = opts;
 }
 
+
+/// corpus files are offered to every stream of the property: a file whose header names another
+/// stream (`# property Cnn stream <name>`) is not for us → empty, successful run
+fn foreign_corpus(path: &std::path::Path, stream: &str) -> bool {
+    let txt = std::fs::read_to_string(path).expect("read replay");
+    for l in txt.lines() {
+        if let Some(rest) = l.strip_prefix("# property ") {
+            let ts: Vec<&str> = rest.split(' ').collect();
+            if ts.len() >= 3 && ts[1] == "stream" {
+                return ts[2] != stream;
+            }
+        }
+    }
+    false
+}
+
 pub fn run(opts: &Opts) {
     // panics inside catch_unwind are expected to be reported through the oracle, not the console
     std::panic::set_hook(Box::new(|_| {}));
     let mut out = Out::new(&opts.out);
     let stream = opts.extra.first().map(|s| s.as_str()).unwrap_or("mol");
     if let Some(p) = &opts.replay {
-        replay(opts, &mut out, p);
+        if !foreign_corpus(p, stream) {
+            replay(opts, &mut out, p);
+        }
     } else {
         match stream {
             "mol" => run_mol(opts, &mut out),
